@@ -33,6 +33,12 @@ var phaseNames = map[providertypes.ConsumerPhase]string{
 	providertypes.CONSUMER_PHASE_DELETED:     "deleted",
 }
 
+func clampInt(x int64) int64 {
+	if x > TimeClamp {
+		return TimeClamp
+	}
+	return x
+}
 func absent() map[string]any            { return map[string]any{"present": false} }
 func present(v any) map[string]any      { return map[string]any{"present": true, "v": v} }
 func strs(xs []string) []any            { r := make([]any, 0, len(xs)); for _, x := range xs { r = append(r, x) }; return r }
@@ -129,7 +135,7 @@ func (w *World) projectProvider(c *Chain, ctx sdk.Context) map[string]any {
 		}
 	}
 	s["lps"] = lps
-	s["M"] = pk.GetMaxProviderConsensusValidators(ctx)
+	s["M"] = clampInt(pk.GetMaxProviderConsensusValidators(ctx)) // (TLC integers are 32-bit; larger values mean "no bound")
 	s["vscId"] = int64(pk.GetValidatorSetUpdateId(ctx))
 	v2h := map[string]any{}
 	for _, e := range pk.GetAllValsetUpdateBlockHeights(ctx) {
